@@ -54,6 +54,11 @@ pub struct AppSpec {
     pub fail_num: u8,
     pub fail_seed: u64,
     pub reenter: Option<Reenter>,
+    /// render every delivered record with the real pattern encoder (pattern
+    /// number `render` of `PATTERNS`) into the appender's own writer; a failing
+    /// delivery fails in that writer, part-way through the record
+    #[serde(default)]
+    pub render: Option<u8>,
 }
 
 #[derive(Clone, Debug, Serialize, Deserialize, PartialEq)]
@@ -305,12 +310,67 @@ fn rec_of(record: &log::Record) -> Option<RecId> {
     Some(RecId { tid: t, n })
 }
 
+/// Patterns for rendering appenders: (pattern, reference renderer pieces).
+pub const PATTERNS: [&str; 6] = ["{l:>7}|{m:>12}|{t}", "{m:<8}{l}", "[{({l} {m}):>16.16}]", "{t:>7.9}:{m}", "{m}", "{m:>3}{l:>9}{t:>6.6}"];
+
+fn pad(s: &str, right: bool, min: usize, max: usize) -> String {
+    let t: String = s.chars().take(max).collect();
+    let fill = " ".repeat(min.saturating_sub(t.chars().count()));
+    if right {
+        format!("{}{}", fill, t)
+    } else {
+        format!("{}{}", t, fill)
+    }
+}
+
+/// What the pattern encoder must write for (pattern number, level, target, message).
+pub fn reference_render(p: u8, lvl: Level, target: &str, msg: &str) -> String {
+    let l = lvl.as_str();
+    const NONE: usize = usize::MAX;
+    match p {
+        0 => format!("{}|{}|{}", pad(l, true, 7, NONE), pad(msg, true, 12, NONE), target),
+        1 => format!("{}{}", pad(msg, false, 8, NONE), l),
+        2 => format!("[{}]", pad(&format!("{} {}", l, msg), true, 16, 16)),
+        3 => format!("{}:{}", pad(target, true, 7, 9), msg),
+        4 => msg.to_string(),
+        _ => format!("{}{}{}", pad(msg, true, 3, NONE), pad(l, true, 9, NONE), pad(target, true, 6, 6)),
+    }
+}
+
+/// The rendering appender's sink: keeps what it is given, up to a budget.
+#[derive(Debug)]
+struct CapWriter {
+    buf: Vec<u8>,
+    budget: usize,
+}
+
+impl std::io::Write for CapWriter {
+    fn write(&mut self, b: &[u8]) -> std::io::Result<usize> {
+        if b.is_empty() {
+            return Ok(0);
+        }
+        let room = self.budget.saturating_sub(self.buf.len());
+        if room == 0 {
+            return Err(std::io::Error::from_raw_os_error(libc::ENOSPC));
+        }
+        let n = room.min(b.len());
+        self.buf.extend_from_slice(&b[..n]);
+        Ok(n)
+    }
+    fn flush(&mut self) -> std::io::Result<()> {
+        Ok(())
+    }
+}
+
+impl log4rs::encode::Write for CapWriter {}
+
 #[derive(Debug)]
 struct CapAppender {
     version: u32,
     idx: usize,
     spec: AppSpec,
     sh: Arc<LShared>,
+    enc: Option<log4rs::encode::pattern::PatternEncoder>,
     /// the appender's own buffer lock (simulated): held for the whole of
     /// `append`, needed by `flush`; never re-entrant, like a real mutex
     busy: std::sync::atomic::AtomicU32,
@@ -352,6 +412,25 @@ impl Append for CapAppender {
                 _ => {}
             }
         }
+        if let (Some(enc), Some(p)) = (&self.enc, self.spec.render) {
+            use log4rs::encode::Encode;
+            // a failing delivery fails in the writer, somewhere inside the record
+            let budget = if failed { (h2(self.spec.fail_seed ^ 0x5151, id) % 14) as usize } else { usize::MAX };
+            let mut w = CapWriter { buf: vec![], budget };
+            let res = enc.encode(&mut w, record);
+            self.sh.sink.probe(if res.is_err() { "rendering_appender_writer_failures" } else { "rendering_appender_records" }, 1);
+            if !failed {
+                let want = reference_render(p, record.level(), record.target(), &record.args().to_string());
+                if res.is_err() || w.buf != want.as_bytes() {
+                    self.sh.sink.fail(
+                        "C03",
+                        "C03-I3",
+                        "received-content",
+                        format!("appender a{} (pattern {:?}) received {:?} for record {}, expected {:?}{}", self.idx, PATTERNS[p as usize % PATTERNS.len()], String::from_utf8_lossy(&w.buf), id, want, if res.is_err() { " (and its encoder failed)" } else { "" }),
+                    );
+                }
+            }
+        }
         kernel::point("cap.append.done");
         if failed {
             Err(anyhow::anyhow!("E:v{}:a{}:{}", self.version, self.idx, id))
@@ -391,7 +470,8 @@ impl Filter for ScriptFilter {
 }
 
 pub fn make_cap(version: u32, idx: usize, spec: AppSpec, sh: Arc<LShared>) -> Box<dyn Append> {
-    Box::new(CapAppender { version, idx, spec, sh, busy: std::sync::atomic::AtomicU32::new(0) })
+    let enc = spec.render.map(|p| log4rs::encode::pattern::PatternEncoder::new(PATTERNS[p as usize % PATTERNS.len()]));
+    Box::new(CapAppender { version, idx, spec, sh, enc, busy: std::sync::atomic::AtomicU32::new(0) })
 }
 
 pub fn new_shared(scn: Scn, sink: Arc<Sink>, global: bool, file_dir: Option<std::path::PathBuf>) -> Arc<LShared> {
@@ -423,7 +503,7 @@ pub fn build_config(spec: &CfgSpec, version: u32, sh: &Arc<LShared>) -> Config {
                 FilterSpec::Threshold { level } => ab.filter(Box::new(ThresholdFilter::new(level_filter(*level)))),
             };
         }
-        b = b.appender(ab.build(format!("a{}", i), Box::new(CapAppender { version, idx: i, spec: a.clone(), sh: sh.clone(), busy: std::sync::atomic::AtomicU32::new(0) })));
+        b = b.appender(ab.build(format!("a{}", i), make_cap(version, i, a.clone(), sh.clone())));
     }
     for l in &spec.loggers {
         b = b.logger(CfgLogger::builder().additive(l.additive).appenders(l.appenders.iter().map(|i| format!("a{}", i))).build(l.name.clone(), level_filter(l.level)));
@@ -599,7 +679,7 @@ pub fn gen_cfg(rng: &mut Rng, nconf: u32, prop: &str, _version: u32) -> CfgSpec 
         } else {
             None
         };
-        appenders.push(AppSpec { filters, fail_num: if prop == "C03" || prop == "C02" { *rng.pick(&[0u8, 0, 1, 2, 4]) } else { 0 }, fail_seed: rng.next_u64(), reenter });
+        appenders.push(AppSpec { filters, fail_num: if prop == "C03" || prop == "C02" { *rng.pick(&[0u8, 0, 1, 2, 4]) } else { 0 }, fail_seed: rng.next_u64(), reenter, render: if prop == "C03" && rng.chance(1, 2) { Some(rng.below(PATTERNS.len() as u64) as u8) } else { None } });
     }
     let pick_apps = |rng: &mut Rng| -> Vec<usize> {
         let k = rng.weighted(&[2, 5, 2, 1]);
